@@ -9,6 +9,8 @@ CONSTANTS
   MaxBatch = 1
   LogDeletes = TRUE
   ReplayOverwrites = TRUE
+  PointSetName = "all"
+  NoMaint = FALSE
   UseIds = FALSE
   SchemaNames = {}
   VKs = {}
